@@ -300,3 +300,25 @@ func famKS(modes []modeSpec, maxLost int, pr bool, gaps []time.Duration, rounds 
 	}
 	return out
 }
+
+// famZ6: a very long backlog of tiny ordered messages builds up in front of a paused reader
+// (more than 2^15 unread messages on one stream fit the default receive buffer).
+func famZ6(counts []int) []xferCase {
+	var out []xferCase
+	for _, n := range counts {
+		a := withBase(epCfg{NoInterleave: true}, 1191, 0xFFFFF000, 4000)
+		b := withBase(epCfg{Server: true, NoInterleave: true}, 1191, 9, 4000)
+		a.MinCwnd = 1 << 20
+		var msgs []msgSpec
+		for i := 0; i < n; i++ {
+			msgs = append(msgs, msgSpec{Size: 7 + i%2, PPI: 53})
+		}
+		out = append(out, xferCase{
+			Name: fmt.Sprintf("Z6/backlog%d", n),
+			K:    0,
+			Spec: &xferSpec{A: a, B: b, PauseReader: 20 * time.Second, Horizon: 400 * time.Second, DrainWait: 200 * time.Second,
+				Streams: []streamSpec{{SID: 1, From: 0, Msgs: msgs}}},
+		})
+	}
+	return out
+}
